@@ -766,6 +766,258 @@ def run_rtp_inject(case: dict) -> Outcome:
 
 
 # --------------------------------------------------------------------------
+# family 3b: arbitrary datagrams at the real network entry, RTCDtlsTransport._recv_next, in every state of the transport
+
+FIRST_BYTES = [0, 1, 19, 20, 22, 23, 25, 63, 64, 100, 127, 128, 144, 176, 191, 192, 200, 255]
+
+
+@st.composite
+def raw_datagram(draw):
+    kind = draw(st.sampled_from(["empty", "one", "two", "random", "random", "plain-rtp", "plain-rtcp"]))
+    if kind == "empty":
+        return {"kind": kind, "data": ""}
+    if kind == "one":
+        return {"kind": kind, "data": bytes([draw(st.sampled_from(FIRST_BYTES))]).hex()}
+    if kind == "two":
+        return {"kind": kind, "data": bytes([draw(st.sampled_from(FIRST_BYTES)), draw(st.sampled_from([0, 96, 191, 192, 200, 208, 209, 255]))]).hex()}
+    if kind == "random":
+        first = draw(st.sampled_from(FIRST_BYTES))
+        tail = draw(st.binary(max_size=draw(st.sampled_from([3, 11, 12, 13, 40, 200, 1500]))))
+        return {"kind": kind, "data": (bytes([first]) + tail).hex()}
+    if kind == "plain-rtp":
+        pkt = R.RtpPacket(payload_type=96, sequence_number=draw(st.integers(0, 65535)), timestamp=draw(st.integers(0, 2**32 - 1)),
+                          ssrc=draw(st.sampled_from([1, 2, 0xFFFFFFFF])), payload=draw(st.binary(max_size=40)))
+        return {"kind": kind, "data": pkt.serialize().hex()}
+    return {"kind": kind, "data": bytes(R.RtcpRrPacket(ssrc=draw(st.sampled_from([1, 2, 0xFFFFFFFF])))).hex()}
+
+
+@st.composite
+def derived_datagram(draw):
+    """Made from a genuine protected datagram of the session (captured at run time)."""
+    return {"kind": draw(st.sampled_from(["prefix", "prefix", "flip", "extend", "replay"])), "of": draw(st.sampled_from(["rtp", "rtcp", "data"])),
+            "n": draw(st.integers(0, 4000))}
+
+
+@st.composite
+def datagram_case(draw, tier="quick"):
+    return {"controlling": draw(st.integers(0, 1)), "roles": draw(st.sampled_from([["client", "server"], ["server", "client"], ["auto", "auto"]])),
+            "target": draw(st.integers(0, 1)),
+            "pre": draw(st.lists(raw_datagram(), max_size=3)),
+            "mid": draw(st.lists(st.tuples(st.integers(0, 8), raw_datagram()).map(list), max_size=4)),
+            "post": draw(st.lists(st.one_of(raw_datagram(), derived_datagram()), min_size=1, max_size=12))}
+
+
+def dtls_class(data: bytes) -> bool:
+    return bool(data) and 19 < data[0] < 64
+
+
+def run_datagrams(case: dict) -> Outcome:
+    import aiortc.rtcdtlstransport as D
+    from checks.c04_dtls import Ice, build_fingerprints, certs
+    from vlib import vloop
+
+    problem: list = []
+    classes: set = set()
+    target = case.get("target", 0) % 2
+    peer = 1 - target
+
+    def hexbytes(x) -> bytes:
+        try:
+            return bytes.fromhex(x)
+        except (ValueError, TypeError):
+            return b""
+
+    class InjIce(Ice):
+        def __init__(self, role: str) -> None:
+            super().__init__(role)
+            self.count = 0
+            self.inject_after: dict = {}
+            self.captured: dict = {}
+            self.capture_as = None
+
+        async def _send(self, data: bytes) -> None:
+            if self.capture_as is not None:
+                self.captured[self.capture_as] = bytes(data)
+                self.capture_as = None
+            await super()._send(data)
+            for extra in self.inject_after.pop(self.count, []):
+                await self.peer.queue.put(extra)
+            self.count += 1
+
+    async def main(loop: vloop.VLoop) -> None:
+        ctrl = case.get("controlling", 0) % 2
+        ices = [InjIce("controlling" if ctrl == 0 else "controlled"), InjIce("controlling" if ctrl == 1 else "controlled")]
+        ices[0].peer, ices[1].peer = ices[1], ices[0]
+        cs = certs()
+        ts = [D.RTCDtlsTransport(ices[i], [cs[i]]) for i in (0, 1)]
+        got: list = [{"rtp": [], "rtcp": [], "data": []}, {"rtp": [], "rtcp": [], "data": []}]
+        for i, t in enumerate(ts):
+            role = (case.get("roles") or ["auto", "auto"])[i]
+            if role in ("client", "server"):
+                t._set_role(role)
+
+            async def rtp_in(data, arrival_time_ms, i=i):
+                got[i]["rtp"].append(bytes(data))
+
+            async def rtcp_in(data, i=i):
+                got[i]["rtcp"].append(bytes(data))
+
+            t._handle_rtp_data = rtp_in  # type: ignore[method-assign]
+            t._handle_rtcp_data = rtcp_in  # type: ignore[method-assign]
+
+            class Sink:
+                def __init__(self, i):
+                    self.i = i
+
+                async def _handle_data(self, data):
+                    got[self.i]["data"].append(bytes(data))
+
+            t._register_data_receiver(Sink(i))
+        good = [{"kind": "good", "algo": "sha-256"}]
+        params = [D.RTCDtlsParameters(fingerprints=build_fingerprints(good, cs[1 - i])) for i in (0, 1)]
+        handshake_dtls = False
+        # datagrams that are there before the handshake starts, and some that arrive in the middle of it
+        for inj in case.get("pre", []):
+            data = hexbytes(inj.get("data")) if isinstance(inj, dict) else b""
+            handshake_dtls |= dtls_class(data)
+            classes.add("pre:" + str(inj.get("kind") if isinstance(inj, dict) else None))
+            ices[target].queue.put_nowait(data)
+        for item in case.get("mid", []):
+            if not (isinstance(item, (list, tuple)) and len(item) == 2 and isinstance(item[0], int) and isinstance(item[1], dict)):
+                continue
+            data = hexbytes(item[1].get("data"))
+            handshake_dtls |= dtls_class(data)
+            classes.add("mid:" + str(item[1].get("kind")))
+            ices[peer].inject_after.setdefault(item[0], []).append(data)
+        try:
+            try:
+                await asyncio.wait_for(asyncio.gather(ts[0].start(params[0]), ts[1].start(params[1])), timeout=60)
+            except asyncio.TimeoutError:
+                classes.add("handshake-timeout")
+            except Exception as exc:
+                problem.append(("datagram-start-raised:" + type(exc).__name__, f"start() raised {exc!r}"))
+                return
+            await asyncio.sleep(0.05)
+            states = [t.state for t in ts]
+            if states != ["connected", "connected"]:
+                if handshake_dtls:
+                    # records of the DTLS content-type range during the handshake are OpenSSL's to judge (DTLS itself does
+                    # not protect a handshake against injected handshake records): nothing to conclude
+                    classes.add("handshake-spoiled-by-dtls-class-record")
+                    return
+                problem.append(("datagram-handshake-broken", f"states {states} after a handshake during which only non-DTLS datagrams were "
+                                                             f"injected: pre={case.get('pre')} mid={case.get('mid')}"[:400]))
+                return
+            classes.add("connected")
+
+            seq = [100]
+
+            async def real(kind: str, src: int, capture: bool = False):
+                seq[0] += 1
+                if kind == "data":
+                    plain = b"data-%d" % seq[0]
+                    if capture:
+                        ices[src].capture_as = kind
+                    await ts[src]._send_data(plain)
+                elif kind == "rtp":
+                    plain = R.RtpPacket(payload_type=96, sequence_number=seq[0], timestamp=seq[0] * 90, ssrc=5, payload=b"rtp-%d" % seq[0]).serialize()
+                    if capture:
+                        ices[src].capture_as = kind
+                    await ts[src]._send_rtp(plain)
+                else:
+                    plain = bytes(R.RtcpRrPacket(ssrc=seq[0]))
+                    if capture:
+                        ices[src].capture_as = kind
+                    await ts[src]._send_rtp(plain)
+                return plain
+
+            expect: dict = {"rtp": [], "rtcp": [], "data": []}
+            for kind in ("rtp", "rtcp", "data"):
+                expect[kind].append(await real(kind, peer, capture=True))
+            await asyncio.sleep(0.01)
+            spoiled = False
+            for inj in case.get("post", []):
+                if not isinstance(inj, dict):
+                    continue
+                kind = inj.get("kind")
+                if "data" in inj:
+                    data = hexbytes(inj.get("data"))
+                else:
+                    base = ices[peer].captured.get(inj.get("of"))
+                    n = inj.get("n", 0) if isinstance(inj.get("n"), int) else 0
+                    if not base:
+                        continue
+                    if kind == "prefix":
+                        data = base[:n % len(base)]
+                    elif kind == "flip":
+                        bit = n % (len(base) * 8)
+                        if dtls_class(base) and 88 <= bit < 104:
+                            bit += 16  # not the record length field, see DESIGN.md section 6 (OpenSSL answers that with an alert)
+                        b = bytearray(base)
+                        b[bit // 8] ^= 1 << (bit % 8)
+                        data = bytes(b)
+                    elif kind == "extend":
+                        data = base + bytes([n & 0xFF]) * (1 + n % 7)
+                    else:
+                        data = base
+                classes.add("post:" + str(kind) + (":" + str(inj.get("of")) if "of" in inj else ""))
+                if dtls_class(data) and not (kind in ("flip", "replay") or len(data) < 13):
+                    # arbitrary or cut / extended record-layer bytes go to OpenSSL, which may answer some of them with a
+                    # fatal alert; only what aiortc itself does with them is judged (nothing may raise)
+                    spoiled = True
+                ices[target].queue.put_nowait(data)
+                await asyncio.sleep(0.001)
+                # between injections, genuine traffic keeps flowing
+                if inj.get("n", 0) % 3 == 0 if isinstance(inj.get("n"), int) else False:
+                    expect["rtp"].append(await real("rtp", peer))
+            await asyncio.sleep(0.02)
+            if ts[target].state != "connected":
+                if spoiled:
+                    classes.add("closed-after-dtls-class-garbage")
+                    return
+                problem.append(("datagram-killed-transport", f"the receiving transport is {ts[target].state!r} after the injected datagrams "
+                                                             f"{[(i.get('kind'), i.get('of'), (i.get('data') or '')[:24]) for i in case.get('post', []) if isinstance(i, dict)]}"[:500]))
+                return
+            # liveness: genuine traffic in both directions is still delivered
+            for kind in ("rtp", "rtcp", "data", "rtp", "data"):
+                expect[kind].append(await real(kind, peer))
+            back = {"rtp": [await real("rtp", target)], "rtcp": [await real("rtcp", target)], "data": [await real("data", target)]}
+            await asyncio.sleep(0.05)
+            for kind in ("rtp", "rtcp", "data"):
+                missing = [x for x in expect[kind] if x not in got[target][kind]]
+                forged = [x for x in got[target][kind] if x not in expect[kind]]
+                if forged:
+                    problem.append(("datagram-forged-delivery", f"{kind}: the transport handed over {len(forged)} unit(s) nobody sent: {forged[0][:40]!r}"))
+                    return
+                if missing and not spoiled:
+                    problem.append(("datagram-traffic-lost", f"{kind}: {len(missing)} of {len(expect[kind])} genuine units sent around the injected "
+                                                             f"datagrams were not delivered"))
+                    return
+                if [x for x in back[kind] if x not in got[peer][kind]] and not spoiled:
+                    problem.append(("datagram-traffic-lost", f"{kind}: the return direction stopped working"))
+                    return
+        finally:
+            for t in ts:
+                try:
+                    await asyncio.wait_for(t.stop(), 10)
+                except Exception:
+                    pass
+            for ice in ices:
+                await ice.stop()
+            await asyncio.sleep(0.01)
+
+    try:
+        errors = vloop.run_sim(main, max_iterations=400000, cpu_seconds=120)
+    except vloop.SimAbort as exc:
+        return Outcome(f"simulation aborted: {exc!r}", "sim-abort:" + type(exc).__name__, True, tuple(sorted(classes)))
+    cl = tuple(sorted(classes))
+    nt = "connected" in classes
+    if problem:
+        return Outcome(problem[0][1], problem[0][0], nt, cl)
+    return Outcome(None, None, nt, cl)
+
+
+# --------------------------------------------------------------------------
 # family 4: coverage-guided byte-level fuzzing (atheris / libFuzzer), same oracle as `parsers`
 
 FUZZ_TARGETS = ["sctp_packet_crc", "sctp_packet", "sctp_params", "reconfig_param", "rtp", "rtp2", "unwrap_rtx", "rtcp", "remb", "hdrext", "h264", "vp8"]
@@ -863,6 +1115,7 @@ CHECK = Check(
         Family("parsers", run_parser, parser_case, quick=20000, thorough=600000, min_shard=500),
         Family("sctp-inject", run_inject, inject_case, quick=2500, thorough=80000, min_shard=20),
         Family("rtp-inject", run_rtp_inject, rtp_inject_case, quick=1500, thorough=50000, min_shard=20),
+        Family("datagrams", run_datagrams, datagram_case, quick=2500, thorough=60000, min_shard=20),
         Family("fuzz", run_parser, custom=run_fuzz, custom_shards=fuzz_shards),
     ],
     floor=500,
